@@ -6,6 +6,7 @@ import SplVerif.Lemmas.Resync
 import SplVerif.Lemmas.Prefix
 import SplVerif.Lemmas.Total
 import SplVerif.Lemmas.Shift
+import SplVerif.Lemmas.FreshEnd
 
 namespace Spl.C05
 
@@ -177,5 +178,151 @@ theorem following_declarations_as_before (A : List Token) (progA : Program) (hA 
    SPECPARSE / PROPCONTAIN establish by evaluation for every generated valid program on every run (the kernel
    evaluation of `parseAbs` on a literal text is too slow to keep as an `example` here); the hypotheses about the
    damaged sequence are instantiated by the three damage operations of PROPCONTAIN. -/
+
+section
+open Spl Spl.Parse Spl.ParseConform Spl.FreshEnd
+
+/-- the first token of a derived declaration list, behind its documentation comments, is a declaration keyword -/
+theorem decls_head_keyword (ctx : Ctx) (fd : Nat) (ts : Grammar.Toks) (d : Ref GlobalDecl) (ds : List (Ref GlobalDecl))
+    (last : Option Nat) (hs : Grammar.decls (G ctx) fd ts = some (d :: ds, last)) (s : St) (hat : At ctx s ts) :
+    ∃ i t, Next ctx.toks s.pos i ∧ ctx.toks[i]? = some t ∧ (t.kind = Kind.Proc ∨ t.kind = Kind.Type) := by
+  cases fd with
+  | zero => simp [Grammar.decls] at hs
+  | succ fd =>
+    rcases decls_other _ _ _ _ _ hs with ⟨i, _, h0, _⟩ | ⟨i, r, rfl⟩ | ⟨i, r, rfl⟩
+    · cases h0
+    · obtain ⟨hN, ⟨t, ht, hty⟩, _, _⟩ := hat.head
+      exact ⟨i, t, hN, ht, Or.inr (by simp [Token.kind, hty, TokenType.kind])⟩
+    · obtain ⟨hN, ⟨t, ht, hty⟩, _, _⟩ := hat.head
+      exact ⟨i, t, hN, ht, Or.inl (by simp [Token.kind, hty, TokenType.kind])⟩
+
+/-- **A syntax error stays in its declaration: what follows is parsed exactly as before.**  `A` is the undamaged
+    token sequence with the derivation `progA` of the grammar specification (what `parser::parse` returns for it, by
+    `C04.parse_conforms`); `d0 :: post` are its declarations from some declaration `d0` on.  `B` is ANY token sequence
+    that, from a position `eB` directly behind a token, goes on exactly like `A` from the start of `d0` (the doc
+    comments in front of its keyword) — in front of `eB` stands whatever the damage made of the earlier declarations.
+    Then every program `parser::parse` returns for `B` contains, one behind the other, exactly the declarations
+    `d0 :: post` of the undamaged program: identical sub-trees — every node, range, inner `Reference` offset and doc
+    comment, no diagnostic in them — each at its `Reference` offset moved by the difference of the two positions.
+    (`keywords_start_declarations` finds the declaration that starts at the keyword of `d0`; `Lemmas/FreshEnd` shows
+    that the loop's iterations start directly behind a token, so that declaration starts at `eB` and not inside the
+    comment run; `Lemmas/Shift` shows that the loop returns the undamaged sub-trees from there.) -/
+theorem declarations_behind_damage_as_before (A B : List Token) (progA progB : Program)
+    (hA : Grammar.parseAbs A = some progA) (hB : Parse.parse B = .ok progB)
+    (pre post : List (Ref GlobalDecl)) (d0 : Ref GlobalDecl) (hsp : progA.decls = pre ++ d0 :: post)
+    (eB : Nat) (hsuf : B.drop eB = A.drop d0.val.info.range.lo) (hfB : Fresh B.toArray eB) :
+    ∃ preB restB, progB.decls = preB ++
+      ((d0 :: post).map Grammar.relDecl).map (fun r => ⟨r.val, r.offset - d0.val.info.range.lo + eB⟩) ++ restB := by
+  -- the undamaged derivation, cut in front of `d0`
+  simp only [Grammar.parseAbs] at hA
+  split at hA
+  · cases hA
+  · rw [← tsFrom_zero] at hA
+    cases hd : Grammar.decls ⟨A.toArray⟩ ((tsFrom A.toArray 0).length + 1) (tsFrom A.toArray 0) with
+    | none => simp [hd] at hA
+    | some res =>
+      obtain ⟨ds, last⟩ := res
+      simp only [hd, Option.some.injEq] at hA
+      subst hA
+      simp only at hsp
+      subst hsp
+      let ctxA : Ctx := { toks := A.toArray, change := ⟨0, 0, A.length⟩ }
+      have hat : At ctxA ({ pos := 0 } : St) (tsFrom ctxA.toks 0) := ⟨Or.inl rfl, Nat.le_refl _, rfl⟩
+      obtain ⟨fd', e, last', _, hatE, hd'⟩ := Shift.decls_split ctxA pre _ _ (d0 :: post) last hd _ hat
+      have he : d0.val.info.range.lo = e := Shift.decls_head_start ctxA fd' _ d0 post last' hd' _ hatE
+      rw [he] at hsuf ⊢
+      obtain ⟨qA, tq, hNA0, htq0, hkq⟩ := decls_head_keyword ctxA fd' _ d0 post last' hd' _ hatE
+      have hNA : Next A.toArray e qA := hNA0
+      have htq : A.toArray[qA]? = some tq := htq0
+      -- the same tokens in `B`
+      have getB : ∀ k, B[eB + k]? = A[e + k]? := by
+        intro k
+        have := congrArg (fun l => l[k]?) hsuf
+        simpa [List.getElem?_drop] using this
+      have hle : e ≤ qA := hNA.le
+      let qB := eB + (qA - e)
+      have hqB : B[qB]? = some tq := by
+        show B[eB + (qA - e)]? = some tq
+        rw [getB]
+        have : e + (qA - e) = qA := by omega
+        rw [this]
+        simpa using htq
+      have hcm : ∀ q, eB ≤ q → q < qB → ∃ t, B[q]? = some t ∧ t.kind = Kind.Comment := by
+        intro q h1 h2
+        have := hNA.cmts (e + (q - eB)) (by omega) (by show e + (q - eB) < qA; omega)
+        obtain ⟨t, ht, hk⟩ := this
+        refine ⟨t, ?_, hk⟩
+        have hq : q = eB + (q - eB) := by omega
+        rw [hq, getB]
+        simpa using ht
+      -- the declaration of `progB` that starts at this keyword
+      obtain ⟨d, hdm, hoff, hcd⟩ := keywords_start_declarations B progB hB qB tq hqB hkq
+      -- the loop
+      let ctxB : Ctx := { toks := B.toArray, change := ⟨0, 0, B.length⟩ }
+      have hparse : Parse.parse B = match parseProgram ctxB none { pos := 0 } with
+          | .ok _ p => .ok p
+          | .err _ _ => .error ⟨"expect:Parser cannot fail"⟩
+          | .panic e => .error e := rfl
+      rw [hparse] at hB
+      cases hr : parseProgram ctxB none { pos := 0 } with
+      | err k x => rw [hr] at hB; cases hB
+      | panic e => rw [hr] at hB; cases hB
+      | ok s' p =>
+        rw [hr] at hB
+        simp only [Except.ok.injEq] at hB
+        subst hB
+        obtain ⟨sE, hloop⟩ := program_loop s' p hr
+        obtain ⟨i, hi, hdi⟩ := List.getElem_of_mem hdm
+        obtain ⟨fi, si, hsi, hg, hrp, hoffi⟩ :=
+          loop_split p.decls _ _ _ hloop (Or.inl (Or.inl rfl)) rfl i hi
+        rw [hdi] at hoffi
+        -- the iteration starts at `eB`, not inside the comment run
+        have hqsz : qB < B.length := by
+          have := (List.getElem?_eq_some_iff.mp hqB).1
+          exact this
+        have hfr : Fresh ctxB.toks si.pos := by
+          rcases hg with h | h
+          · exact h
+          · exfalso
+            have h' : B.toArray.size ≤ si.pos := h
+            have : B.length ≤ si.pos := by simpa using h'
+            omega
+        have hpos : si.pos = eB := by
+          rw [← hoffi]
+          rcases Nat.lt_trichotomy d.offset eB with hlt | heq | hgt
+          · exfalso
+            rcases hfB with h0 | ⟨t, ht, hk⟩
+            · omega
+            · have := hcd (eB - 1) t (by omega) (by omega) (by simpa using ht)
+              exact hk this
+          · exact heq
+          · exfalso
+            rw [← hoffi] at hfr
+            rcases hfr with h0 | ⟨t, ht, hk⟩
+            · omega
+            · obtain ⟨t', ht', hk'⟩ := hcm (d.offset - 1) (by omega) (by omega)
+              have : B.toArray[d.offset - 1]? = some t' := by simpa using ht'
+              rw [this] at ht
+              cases ht
+              exact hk hk'
+        -- from there the loop returns the undamaged sub-trees
+        have hsuf' : ctxB.toks.toList.drop si.pos = A.toArray.toList.drop e := by
+          rw [hpos]; simpa using hsuf
+        obtain ⟨endB, ieof, _, _, hres⟩ :=
+          Shift.tail_as_before A.toArray e fd' (d0 :: post) last' hd' hatE.fresh ctxB si hsuf' hfr hrp fi
+        have hbig := many0_mono' _ fi si sE (p.decls.drop i) hsi (d0 :: post).length
+        rw [hres] at hbig
+        cases hrest : many0 (refParse (parseGlobalDecl ctxB) none) fi { si with pos := endB } with
+        | ok sX rest =>
+          rw [hrest] at hbig
+          simp only [prependRes, Res.ok.injEq] at hbig
+          refine ⟨p.decls.take i, rest, ?_⟩
+          rw [hpos] at hbig
+          rw [List.append_assoc, hbig.2]
+          exact (List.take_append_drop i p.decls).symm
+        | err k x => rw [hrest] at hbig; simp [prependRes] at hbig
+        | panic e => rw [hrest] at hbig; simp [prependRes] at hbig
+
+end
 
 end Spl.C05
